@@ -19,11 +19,11 @@ export CARGO_NET_OFFLINE=true CARGO_TARGET_DIR=$W/target
 sleep 1.2; touch src/lib.rs src/*/*.rs
 if cargo test --offline >suite.log 2>&1; then echo "RESULT suite_with_patch=pass"; else echo "RESULT suite_with_patch=FAIL"; grep -E "FAILED|panicked|error" suite.log | head -5; fi
 cp "$sd/demo.rs" tests/seed_demo.rs
-if cargo test --offline --test seed_demo >demo1.log 2>&1; then echo "RESULT demo_with_patch=pass(BAD)"; else echo "RESULT demo_with_patch=fail(good)"; fi
+if cargo test --offline --features verif-hooks --test seed_demo >demo1.log 2>&1; then echo "RESULT demo_with_patch=pass(BAD)"; else echo "RESULT demo_with_patch=fail(good)"; fi
 git checkout -q -- src   # not `git apply -R`: with two textually identical code sites the reverse hunk can land on the other one
 # make sure cargo notices the reversal (mtime granularity)
 sleep 1.2; touch src/lib.rs src/*/*.rs
-if cargo test --offline --test seed_demo >demo0.log 2>&1; then echo "RESULT demo_without_patch=pass(good)"; else echo "RESULT demo_without_patch=FAIL(BAD)"; tail -5 demo0.log; fi
+if cargo test --offline --features verif-hooks --test seed_demo >demo0.log 2>&1; then echo "RESULT demo_without_patch=pass(good)"; else echo "RESULT demo_without_patch=FAIL(BAD)"; tail -5 demo0.log; fi
 rm -f tests/seed_demo.rs
 git apply "$sd/patch.diff"
 # scratch harness against the patched worktree
